@@ -9,6 +9,7 @@ from lib import gen_db, simreads
 from lib.runner import Result, V, scratch
 
 ID = "C19"
+ISOLATE = True  # end-to-end solver calls: run every case in a killable child
 RULE = ("case = generated database x hole mode (1 reads only in the neutral region, 2 reads everywhere but gene+pseudogene, "
         "3 covered locus but average depth below a raised min_avg_coverage, 4 reads over the pseudogene only, 5 empty neutral region, "
         "6 control) x route (profile BAM, profile file, user-supplied structure with/without a profile) x output format "
